@@ -47,6 +47,10 @@ pub fn new_box(area: &str) -> Option<Box<dyn VerifBox>> {
         "c15" => Some(Box::new(
             crate::protocol::libp2p::kademlia::verif_c15::QueryBox::new(),
         )),
+        "c08" => Some(Box::new(
+            crate::protocol::verif_c08::ServiceBox::new(),
+        )),
+        "c09" => Some(Box::new(crate::protocol::verif_c09::KeepAliveBox::new())),
         _ => None,
     }
 }
@@ -70,6 +74,7 @@ pub fn areas() -> Vec<&'static str> {
         "c19",
         "c20",
     ]
+    vec!["c17", "c08", "c09"]
 }
 
 /// Decode a hex string.
@@ -170,4 +175,31 @@ pub fn clear_key_overrides() {
 /// The dictated key of `peer`, if any.
 pub fn key_override(peer: &crate::PeerId) -> Option<[u8; 32]> {
     KEY_OVERRIDES.with(|m| m.borrow().get(peer).copied())
+thread_local! {
+    /// Logical clock of the C09 adapter: (`std` instant, tokio instant) taken at the same moment.
+    static LOGICAL_CLOCK: std::cell::Cell<Option<(std::time::Instant, tokio::time::Instant)>> =
+        const { std::cell::Cell::new(None) };
+}
+
+/// Switch the logical clock on (the calling thread must be inside the adapter's runtime, whose
+/// tokio clock is paused) or off.
+pub fn set_logical_clock(on: bool) {
+    LOGICAL_CLOCK.with(|c| {
+        c.set(on.then(|| (std::time::Instant::now(), tokio::time::Instant::now())))
+    });
+}
+
+/// `std` instant standing for logical time zero.
+pub fn logical_base() -> Option<std::time::Instant> {
+    LOGICAL_CLOCK.with(|c| c.get().map(|(base, _)| base))
+}
+
+/// The tokio (paused) clock expressed as a `std::time::Instant`, if the logical clock is on.
+pub fn logical_now() -> Option<std::time::Instant> {
+    LOGICAL_CLOCK.with(|c| c.get().map(|(base, tokio_base)| base + (tokio::time::Instant::now() - tokio_base)))
+}
+
+/// `t.elapsed()` on the logical clock.
+pub fn logical_elapsed(t: std::time::Instant) -> Option<std::time::Duration> {
+    logical_now().map(|now| now.saturating_duration_since(t))
 }
